@@ -666,6 +666,36 @@ def self_test(ctx, uniq, verdicts):
     return out
 
 
+def run_stops_early(ctx):
+    """run(..., withexitstatus=True) leaves its loop while the child is still alive (a callback returns true, the timeout,
+    TIMEOUT as an event) and the child then ends by exiting with a code of its own when the terminal goes away: the status
+    returned alongside the output is that code (the property's last sentence), not something read before the child ended"""
+    import pexpect, sys
+    n = 0
+    for code in (7, 0, 255):
+        prog = ('import os,signal,sys,time; signal.signal(signal.SIGHUP, lambda *a: os._exit(%d)); '
+                'print("ready", flush=True); time.sleep(60)' % code)
+        cmd = '%s -c \'%s\'' % (sys.executable, prog)
+        for how, kw in (('callback-returns-true', {'events': [('ready', lambda d: True)]}),
+                        ('timeout', {'timeout': 0.5}),
+                        ('TIMEOUT-event-callback-returns-true', {'events': {pexpect.TIMEOUT: lambda d: True}, 'timeout': 0.5})):
+            got = None
+            for attempt in range(3):
+                try:
+                    out, st = pexpect.run(cmd, withexitstatus=True, **kw)
+                    got = (out, st)
+                except Exception as e:
+                    got = ('%s: %s' % (type(e).__name__, e), None)
+                if got[1] == code:
+                    break
+            n += 1
+            if got[1] != code:
+                ctx.fail('C09:run-returns-a-status-that-is-not-the-child\'s-fate', {'run_stops_by': how, 'child_exits_with': code},
+                         detail={'returned': repr(got), 'want_status': code}, signature={'stops_by': how})
+    ctx.note('%d run(withexitstatus=True) calls that stop while the child is alive (callback, timeout, TIMEOUT event); the child '
+             'exits with its own code at the hang-up: that code is returned' % n)
+
+
 def run(ctx):
     pid = ctx.pid
     if ctx.replay:
@@ -773,6 +803,8 @@ def run(ctx):
         ctx.note('%d harness-level verdicts (e.g. %s) next to the violations reported below' % (len(harness_bad), harness_bad[0][1]))
     for c, ev, v, at in confirmed:
         ctx.fail(v, {'case': c}, detail={'failing_event': at - 1, 'events': ev[:at - 1]}, signature=facts(c, ev, at))
+    if pid == 'C09':
+        run_stops_early(ctx)
     verd_of = {t['id']: ('ok', 0) for t in pool_ok}
     try:
         st_self = self_test(ctx, pool_ok, verd_of)
@@ -834,6 +866,14 @@ def run(ctx):
 
 def replay(ctx):
     d = json.load(open(ctx.replay))
+    if 'run_stops_by' in d['case']:
+        run_stops_early(ctx)
+        bad = [f for f in ctx.failures if f.case.get('run_stops_by') == d['case']['run_stops_by']]
+        print('replay: run() stopped by %s -> %s' % (d['case']['run_stops_by'], 'status differs from the child\'s exit code' if bad else 'ok'))
+        if bad:
+            print('VIOLATION property=%s replay=%s' % (ctx.pid, ctx.replay))
+            return 1
+        return 0
     case = d['case']['case']
     os.chdir(ctx.work)
     LC.init_worker(ctx.work)
